@@ -81,15 +81,15 @@ template <class C> struct Scenario {
         UriMemoryManager *mm = mem->mm(); const C *ep = 0;
         switch (sp.kind) {
         case K_PARSE:
-            u_live = true;
+            u_live = true; memset(&u, 0x5A, sizeof u);      // an OUT parameter: what it holds on entry must not matter (not read, not released)
             if (mm) return A::ParseSingleUriExMm(&u, ta.data(), ta.data() + ta.size(), &ep, mm);
             if (sp.p1 == 1) { typename A::State st; st.uri = &u; return A::ParseUriEx(&st, ta.data(), ta.data() + ta.size()); }
             if (sp.p1 == 2) return A::ParseSingleUri(&u, ta.c_str(), &ep);
             return A::ParseSingleUriEx(&u, ta.data(), ta.data() + ta.size(), &ep);
         case K_MAKEOWNER: return mm ? A::MakeOwnerMm(&u, mm) : A::MakeOwner(&u);
         case K_NORMALIZE: return mm ? A::NormalizeSyntaxExMm(&u, (unsigned)sp.p1, mm) : (sp.p1 == 63 ? A::NormalizeSyntax(&u) : A::NormalizeSyntaxEx(&u, (unsigned)sp.p1));
-        case K_RESOLVE: { dest_live = true; UriResolutionOptions o = sp.p1 ? URI_RESOLVE_IDENTICAL_SCHEME_COMPAT : URI_RESOLVE_STRICTLY; return mm ? A::AddBaseUriExMm(&dest, ra.u, rb.u, o, mm) : (sp.p1 ? A::AddBaseUriEx(&dest, ra.u, rb.u, o) : A::AddBaseUri(&dest, ra.u, rb.u)); }
-        case K_SHORTEN: dest_live = true; return mm ? A::RemoveBaseUriMm(&dest, ra.u, rb.u, sp.p1, mm) : A::RemoveBaseUri(&dest, ra.u, rb.u, sp.p1);
+        case K_RESOLVE: { dest_live = true; memset(&dest, 0x5A, sizeof dest); UriResolutionOptions o = sp.p1 ? URI_RESOLVE_IDENTICAL_SCHEME_COMPAT : URI_RESOLVE_STRICTLY; return mm ? A::AddBaseUriExMm(&dest, ra.u, rb.u, o, mm) : (sp.p1 ? A::AddBaseUriEx(&dest, ra.u, rb.u, o) : A::AddBaseUri(&dest, ra.u, rb.u)); }
+        case K_SHORTEN: dest_live = true; memset(&dest, 0x5A, sizeof dest); return mm ? A::RemoveBaseUriMm(&dest, ra.u, rb.u, sp.p1, mm) : A::RemoveBaseUri(&dest, ra.u, rb.u, sp.p1);
         case K_DISSECT: return mm ? A::DissectQueryMallocExMm(&ql, &qcount, ta.data(), ta.data() + ta.size(), sp.p1, (UriBreakConversion)sp.p2, mm) : A::DissectQueryMallocEx(&ql, &qcount, ta.data(), ta.data() + ta.size(), sp.p1, (UriBreakConversion)sp.p2);
         case K_COMPOSE: return mm ? A::ComposeQueryMallocExMm(&composed, &nodes[0], sp.p1, sp.p2, mm) : A::ComposeQueryMallocEx(&composed, &nodes[0], sp.p1, sp.p2);
         }
